@@ -45,6 +45,12 @@ def run(ctx):
     dirdiff(ctx)
     from . import history
     history.run_cache_scenarios(rep, ctx.repo, 'Jacobian', 2)
+    rep.rule('R-JAC-REENTRY', 'a Jacobian call that follows a call aborted by an exception in f (same or new object) equals a fresh one: no work array survives a call', 4)
+    for sc in history.aborted_call_scenarios('Jacobian', 2):
+        try:
+            history.run_scenario(rep, ctx.repo, sc, 'R-JAC-REENTRY', 'finite_difference.JacobianDifferenceFunctions.increments', ctx.repo.module('finite_difference').relpath)
+        except AnalysisError as exc:
+            rep.undecided('R-JAC-REENTRY', 'finite_difference.JacobianDifferenceFunctions.increments', exc, sc.name)
     rep.notes['trusted_base'] = ['python ast', 'ndverif abstract interpreter, stencil and data-abstract domains']
 
 
